@@ -829,10 +829,14 @@ impl Paragraph {
 
     /// Remove the given field from the paragraph.
     pub fn remove(&mut self, key: &str) {
-        for mut entry in self.entries() {
-            if entry.key().as_deref() == Some(key) {
-                entry.detach();
-            }
+        // Collect first: detaching an entry while iterating over its siblings
+        // would end the iteration after the first match.
+        let matching = self
+            .entries()
+            .filter(|entry| entry.key().as_deref() == Some(key))
+            .collect::<Vec<_>>();
+        for mut entry in matching {
+            entry.detach();
         }
     }
 
